@@ -35,6 +35,7 @@ import (
 	govv1 "github.com/cosmos/cosmos-sdk/x/gov/types/v1"
 
 	authtypes "github.com/cosmos/cosmos-sdk/x/auth/types"
+	banktypes "github.com/cosmos/cosmos-sdk/x/bank/types"
 	govtypes "github.com/cosmos/cosmos-sdk/x/gov/types"
 
 	"verifharness/chain"
@@ -123,6 +124,7 @@ type world struct {
 	msgFail    map[string]int
 	// counters of the rarer shapes (classes shared by the C11/C12/C13 machines)
 	htltCreated, htltClaimed, oracleRandom, seedProviders, timePromoBindings int
+	discardedAfterExec, historyShortened                                       int
 }
 
 // shapeClasses names the rarer shapes this history contained (accepted transactions only).
@@ -138,6 +140,8 @@ func (w *world) shapeClasses() []string {
 	add(w.oracleRandom > 0, "oracle-random-request")
 	add(w.oracleRandom > 0 && w.seedProviders >= 2, "oracle-random-request-with->=2-providers")
 	add(w.timePromoBindings > 0, "binding-with-time-promotion")
+	add(w.discardedAfterExec > 0, "tx-executed-then-discarded")
+	add(w.historyShortened > 0, "feed-history-length-edited")
 	return cl
 }
 
@@ -204,6 +208,11 @@ func (h *hist) nextBlock(t *rapid.T, maxTxs int) blockOp {
 			continue
 		}
 		_ = used
+		if rapid.IntRange(0, 11).Draw(t, "poison") == 0 {
+			// a trailing message that must fail (a coin nobody holds): the earlier messages of the transaction are
+			// executed and then discarded, which only leaves a trace in state that lives outside the store
+			tx.Msgs = append(tx.Msgs, h.enc(&banktypes.MsgSend{FromAddress: h.addr(tx.User), ToAddress: h.addr(0), Amount: coins("nosuchcoin", 1)})...)
+		}
 		op.Txs = append(op.Txs, tx)
 	}
 	return op
@@ -250,7 +259,21 @@ func (h *hist) nextTx(t *rapid.T) (txSpec, bool) {
 			r := pick(t, "feedreq", reqs)
 			if pu := userIndex(h.n, r.provider); pu >= 0 {
 				out := fmt.Sprintf(`{"header":{},"body":{"last":"%d.%02d"}}`, rapid.IntRange(0, 5000).Draw(t, "val"), rapid.IntRange(0, 99).Draw(t, "frac"))
-				return txSpec{pu, h.enc(&servicetypes.MsgRespondService{RequestId: r.id, Provider: r.provider, Result: hResult, Output: out})}, true
+				msgs := h.enc(&servicetypes.MsgRespondService{RequestId: r.id, Provider: r.provider, Result: hResult, Output: out})
+				if rapid.IntRange(0, 3).Draw(t, "discardanswer") == 0 {
+					// the answer (and the feed value it would append) is executed and then discarded with its transaction;
+					// the request stays open and can be answered again
+					msgs = append(msgs, h.enc(&banktypes.MsgSend{FromAddress: r.provider, ToAddress: h.addr(0), Amount: coins("nosuchcoin", 1)})...)
+				}
+				return txSpec{pu, msgs}, true
+			}
+		}
+	}
+	if len(w.feeds) > 0 && rapid.IntRange(0, 9).Draw(t, "shrinkhist") == 0 {
+		// the creator shortens the history of a feed that already holds several values
+		for _, f := range w.feeds {
+			if n := len(k.Oracle.GetFeedValues(ctx, f.Name)); n >= 2 {
+				return txSpec{f.Creator, h.enc(&oracletypes.MsgEditFeed{FeedName: f.Name, Description: "[do-not-modify]", LatestHistory: uint64(rapid.IntRange(1, n-1).Draw(t, "shorter")), Creator: h.addr(f.Creator)})}, true
 			}
 		}
 	}
@@ -731,7 +754,7 @@ func (h *hist) nextTx(t *rapid.T) (txSpec, bool) {
 			if rapid.IntRange(0, 2).Draw(t, "pairname") == 0 {
 				name = fmt.Sprintf("usdt%d-stake", s)
 			}
-			return txSpec{u, h.enc(&oracletypes.MsgCreateFeed{FeedName: name, LatestHistory: uint64(rapid.IntRange(1, 4).Draw(t, "hist")), Description: "feed", Creator: me, ServiceName: b.Svc,
+			return txSpec{u, h.enc(&oracletypes.MsgCreateFeed{FeedName: name, LatestHistory: uint64(rapid.SampledFrom([]int{1, 2, 2, 2, 3, 4}).Draw(t, "hist")), Description: "feed", Creator: me, ServiceName: b.Svc,
 				Providers: provs, Input: hInput, Timeout: timeout, ServiceFeeCap: coins("stake", 50), RepeatedFrequency: uint64(timeout) + uint64(rapid.IntRange(0, 3).Draw(t, "freq")),
 				AggregateFunc: pick(t, "agg", []string{"avg", "max", "min"}), ValueJsonPath: "last", ResponseThreshold: uint32(rapid.IntRange(1, len(provs)).Draw(t, "thr"))})}, true
 		}
@@ -779,6 +802,9 @@ func (h *hist) observe(op blockOp, resp *abci.ResponseFinalizeBlock) {
 			w.modules[parts[0]]++
 		}
 		if res.Code != 0 {
+			if _, poisoned := msgs[len(msgs)-1].(*banktypes.MsgSend); poisoned && len(msgs) >= 2 {
+				w.discardedAfterExec++
+			}
 			continue
 		}
 		if tx.User >= h.rich && len(msgs) >= 2 {
@@ -840,6 +866,10 @@ func (h *hist) observe(op blockOp, resp *abci.ResponseFinalizeBlock) {
 				}
 			case *oracletypes.MsgCreateFeed:
 				w.feeds = append(w.feeds, hFeed{x.FeedName, tx.User, x.ServiceName})
+			case *oracletypes.MsgEditFeed:
+				if x.LatestHistory > 0 {
+					w.historyShortened++
+				}
 			case *randomtypes.MsgRequestRandom:
 				if x.Oracle {
 					w.oracleRandom++
